@@ -176,7 +176,7 @@ def Spec (E : Env α) (c : FCtx α) (root n : Node α) (s : HState α) (ids : Li
 /-- conservation: nothing released — and then the node fails the low-count filter on the rows it holds —, or the counts
 add up to the node's released count or one less -/
 def Cons (E : Env α) (c : FCtx α) (n : Node α) (ids : List Nat) (s' : HState α) : Prop :=
-  (ids = [] ∧ n.overThreshold E c c.ap.supp.lt = false) ∨ ∃ N, n.noisyCount E c = .ok N ∧ (sumCounts s'.cells ids = N ∨ sumCounts s'.cells ids = N - 1)
+  (ids = [] ∧ n.overThreshold E c c.ap.supp.lt = false) ∨ Releasable E c n ∧ ∃ N, n.noisyCount E c = .ok N ∧ (sumCounts s'.cells ids = N ∨ sumCounts s'.cells ids = N - 1)
 
 /-- what `_refine_buckets` guarantees: fresh cells only, adding up to exactly the requested count -/
 def RefineSpec (E : Env α) (c : FCtx α) (root n : Node α) (count : Int) (s : HState α) (ids : List Nat) (s' : HState α) : Prop :=
@@ -239,10 +239,10 @@ theorem leaf_of_refine (E : Env α) (c : FCtx α) (hlt : 0 ≤ c.ap.supp.lt) (ro
       obtain ⟨rfl, rfl⟩ := StateT_pure_ok _ _ _ _ h3
       obtain ⟨e1, e2, e3, e4⟩ := single_cell_spec E c root (n.data.comb.length + 1) (nodeKey n) s n.bucketIntervals N hN0
         (CellOK.self E c root n hreach hrel (bucketIntervals_length hsh)) hG
-      exact ⟨⟨e1, e2, e3⟩, Or.inr ⟨N, hN, Or.inl e4⟩⟩
+      exact ⟨⟨e1, e2, e3⟩, Or.inr ⟨hrel, N, hN, Or.inl e4⟩⟩
     · rw [if_neg hs] at h
       obtain ⟨e1, e2, e3, _, hsum⟩ := hR n N s ids s' hsh hreach hrel hG hN0 h
-      exact ⟨⟨e1.mono (Nat.le_succ _), e2, e3⟩, Or.inr ⟨N, hN, Or.inl hsum⟩⟩
+      exact ⟨⟨e1.mono (Nat.le_succ _), e2, e3⟩, Or.inr ⟨hrel, N, hN, Or.inl hsum⟩⟩
   · rw [if_neg hover] at h0
     obtain ⟨rfl, rfl⟩ := StateT_pure_ok _ _ _ _ h0
     exact ⟨Spec.nil E c root n s hG, Or.inl ⟨rfl, by simpa using hover⟩⟩
@@ -971,14 +971,14 @@ theorem branch_of_node (E : Env α) (c : FCtx α) (hlt : 0 ≤ c.ap.supp.lt) (ro
       obtain ⟨rfl, rfl⟩ := StateT_pure_ok _ _ _ _ h8
       obtain ⟨e1, e2, e3, e4⟩ := single_cell_spec E c root (d.comb.length + 1) (nodeKey (.branch d subs ch)) s1
         (Node.branch d subs ch).bucketIntervals N hN0 hokn hG1
-      exact ⟨⟨hE1.trans e1, e2, e3⟩, Or.inr ⟨N, hNc, Or.inl e4⟩⟩
+      exact ⟨⟨hE1.trans e1, e2, e3⟩, Or.inr ⟨hrel, N, hNc, Or.inl e4⟩⟩
     · rw [if_neg h1d] at h6
       obtain ⟨rids, s3, h7, h8⟩ := StateT_bind_ok _ _ _ _ _ h6
       obtain ⟨rfl, rfl⟩ := StateT_pure_ok _ _ _ _ h8
       obtain ⟨e1, e2, e3, e4, e5⟩ := hR (.branch d subs ch) (N - sumCounts s1.cells ids0) s1 rids s3 hsh hreach hrel hG1
         (by omega) h7
       have hgood3 := hgood.mono e1
-      refine ⟨⟨hE1.trans (e1.mono (Nat.le_succ _)), e2, ⟨?_, ?_⟩⟩, Or.inr ⟨N, hNc, Or.inl ?_⟩⟩
+      refine ⟨⟨hE1.trans (e1.mono (Nat.le_succ _)), e2, ⟨?_, ?_⟩⟩, Or.inr ⟨hrel, N, hNc, Or.inl ?_⟩⟩
       · rw [List.nodup_append]
         refine ⟨hgood.1, e3.1, ?_⟩
         intro a ha b hb hab
@@ -1053,7 +1053,7 @@ theorem branch_of_node (E : Env α) (c : FCtx α) (hlt : 0 ≤ c.ap.supp.lt) (ro
           have := b3 _ hm
           simp only at this
           rw [List.getElem_map, this]
-      refine ⟨⟨hE1.trans hext, ⟨?_, ?_, ?_⟩, hgood.mono hext⟩, Or.inr ⟨N, hNc, ?_⟩⟩
+      refine ⟨⟨hE1.trans hext, ⟨?_, ?_, ?_⟩, hgood.mono hext⟩, Or.inr ⟨hrel, N, hNc, ?_⟩⟩
       · intro id hid
         simp only [b1] at hid
         by_cases hin : id ∈ ids0
